@@ -3,7 +3,6 @@
 From Coq Require Import List NArith Bool.
 From Frugal Require Import Bytes Wire Values Desc Spec Encode Decode Checks.
 From Frugal.gen Require Import Params.
-From Frugal.proofs Require Import RoundTrip.
 Import ListNotations.
 Open Scope N_scope.
 
@@ -34,7 +33,6 @@ Definition v_ex : val :=
        VP (Some v_inner);
        VL (Some [VS 9223372036854775808; VS 0]) ] [].
 
-Example ex_params : params_ok = true /\ tables_ok = true. Proof. split; vm_compute; reflexivity. Qed.
 Example ex_env : env_ok env_ex = true /\ init_ok env_ex = true. Proof. split; vm_compute; reflexivity. Qed.
 Example ex_typed : has_type env_ex (TStruct 0) v_ex = true. Proof. vm_compute. reflexivity. Qed.
 Example ex_hyps : Spec.holders_empty v_ex = true /\ enums32 env_ex (TStruct 0) v_ex = true
